@@ -129,6 +129,11 @@ type scalarCase struct {
 	A, B     ScalarSpec
 	TT       gen.ElemType // type of the temporaries
 	X        []ScalarSpec // vector operand (SmoothMax, LogSmoothMax)
+	// Hist != 0: every object that is an operand and at the same time the
+	// receiver or a temporary goes through an order-changing history first
+	// (history.go); the seed makes all evaluations of the case use the same one
+	Hist uint64
+	hs   *histStats
 }
 
 func (sc scalarCase) opName() string {
@@ -148,6 +153,9 @@ func (sc scalarCase) witness() map[string]any {
 	}
 	if sc.Op.temps > 0 {
 		w["temporaries"] = fmt.Sprintf("%d x %s", sc.Op.temps, sc.TT.Name)
+	}
+	if sc.Hist != 0 {
+		w["history"] = fmt.Sprintf("aliased operand object first goes through an order-changing history (seed %#x), then is restored to the state shown", sc.Hist)
 	}
 	if sc.Op.vec {
 		xs := make([]string, len(sc.X))
@@ -177,9 +185,9 @@ func (sc scalarCase) eval(pat pattern, recvInit *ScalarSpec) (res snap.Elem, p *
 		var o ad.Scalar
 		switch {
 		case contains(g, "a"):
-			o = sc.A.Build()
+			o = scalarWithHistory(sc.A, sc.Hist, sc.hs)
 		case contains(g, "b"):
-			o = sc.B.Build()
+			o = scalarWithHistory(sc.B, sc.Hist, sc.hs)
 		case contains(g, "r"):
 			o = ad.NewScalar(sc.T.T, 0)
 		default:
@@ -192,7 +200,7 @@ func (sc scalarCase) eval(pat pattern, recvInit *ScalarSpec) (res snap.Elem, p *
 	if o, ok := shared("r"); ok {
 		r = o
 	} else if recvInit != nil {
-		r = recvInit.Build()
+		r = scalarWithHistory(*recvInit, sc.Hist, sc.hs)
 	} else {
 		r = ad.NewScalar(sc.T.T, 0)
 	}
@@ -291,8 +299,30 @@ func (sc scalarCase) class() string {
 	return "any"
 }
 
+// differs: does the aliased evaluation diverge from the reference?
+func (sc scalarCase) differs() bool {
+	sc.hs = &histStats{}
+	ref, pr := sc.eval(pattern{}, nil)
+	got, pa := sc.eval(sc.Pat, nil)
+	if pr != nil {
+		return false
+	}
+	if pa != nil {
+		return !aliasRejection(pa.Msg)
+	}
+	return snap.Diff(got, ref, sc.T.IsInt) != ""
+}
+
 // judge evaluates reference and aliased configuration and reports.
 func (sc scalarCase) judge(cs *fw.Case) {
+	sc.hs = &histStats{}
+	defer func() {
+		if sc.Hist != 0 {
+			cs.C.Cover("history-applied:scalar", int64(sc.hs.applied))
+			cs.C.Cover("history-state-not-restored:scalar", int64(sc.hs.unrestored))
+			cs.C.Cover("history-panicked:scalar", int64(sc.hs.panicked))
+		}
+	}()
 	ref, pr := sc.eval(pattern{}, nil)
 	got, pa := sc.eval(sc.Pat, nil)
 	key := "scalar:" + sc.T.Name
@@ -359,7 +389,16 @@ func (sc scalarCase) judge(cs *fw.Case) {
 			cause = "prior-state"
 		}
 	}
-	sig := fmt.Sprintf("C08|scalar|%s|%s|alias=%s|%s,cause=%s|%s", sc.Op.name, tmpl(sc.T), sc.Pat.name, sc.class(), cause, v.kind)
+	class := sc.class()
+	if sc.Hist != 0 {
+		// does the divergence need the history?  (same operands, plainly built)
+		q := sc
+		q.Hist = 0
+		if !q.differs() {
+			class += ",needs-history"
+		}
+	}
+	sig := fmt.Sprintf("C08|scalar|%s|%s|alias=%s|%s,cause=%s|%s", sc.Op.name, tmpl(sc.T), sc.Pat.name, class, cause, v.kind)
 	w := sc.witness()
 	w["fresh_receiver_result"] = fmt.Sprintf("%+v", ref)
 	w["aliased_result"] = fmt.Sprintf("%+v", got)
@@ -549,6 +588,38 @@ func runScalars(c *fw.Ctx) {
 				cs.Sample(sc.witness())
 			}
 		}
+	})
+	// histories: Real receivers whose aliased operand object has a past of
+	// changing derivative order (own monitors: older case addresses stay put)
+	var hc []scalarCombo
+	for _, k := range combos {
+		if !k.T.IsReal {
+			continue
+		}
+		for _, g := range k.pat.groups {
+			if contains(g, "a") || contains(g, "b") {
+				hc = append(hc, k)
+				break
+			}
+		}
+	}
+	c.CoverMax("max:scalar-history-combos", int64(len(hc)))
+	c.Cases("scalar.history.directed", len(hc), func(cs *fw.Case) {
+		k := hc[cs.Index]
+		for rep := 0; rep < 4; rep++ {
+			sc := genScalarCase(cs.R, k.T, k.op, k.concrete, k.pat, k.oa, k.ob)
+			sc.Hist = cs.R.Uint64() | 1
+			sc.judge(cs)
+			if rep == 0 {
+				cs.Sample(sc.witness())
+			}
+		}
+	})
+	c.Cases("scalar.history.random", c.N(60000, 1200000), func(cs *fw.Case) {
+		k := hc[cs.R.Intn(len(hc))]
+		sc := genScalarCase(cs.R, k.T, k.op, k.concrete, k.pat, -1, -1)
+		sc.Hist = cs.R.Uint64() | 1
+		sc.judge(cs)
 	})
 	c.Cases("scalar.random", c.N(150000, 4000000), func(cs *fw.Case) {
 		k := combos[cs.R.Intn(len(combos))]
